@@ -214,3 +214,10 @@ TEXT['C19'].update(
     level_note='Trusted: ownership / linearity analysis, zip / set / list axioms. Assumed contracts: len0, is_iterable. Path precondition: no pandas / numpy values (loops.T excluded). Known findings: '
                'unmatched companions are recursed into; as_tuple on a list holding one list.',
     technique='contract-based deductive verification: linearity / frame analysis + AST-generated VCs (z3/cvc5) + bounded run-time contract check')
+
+PROPS['C05'].update(explanation='Deductive (113 obligations): is_holiday / is_bday equal the predicate; adjust f/p (loops with invariants and variants) and m; add on the loop path (|n| <= 1) and the table '
+    'path; bdays; Calendar.drange("1b"); the relational clauses (path agreement, bdays(t, add(t,n)) == n, inverse) with counting lemmas proved by induction; Calendar._populate verified on its body '
+    '(rrule with byweekday by axiom, filtered comprehension with a counting invariant) against the table contract its callers use; the calendar() registry reflects the arguments it was last called with. '
+    'Holiday and weekend sets are uninterpreted, so every configuration is covered. Bounded: the same clauses natively on 48 random configurations, registry histories.')
+TEXT['C05'].update(level_note='Trusted: VC generator, solvers, induction schema, datetime axioms, rrule(DAILY, byweekday) enumeration axiom, ymd drops the time of day (C04), Calendar(...) stores its arguments. '
+    'Range precondition: dates lie between two business days of the calendar.')
